@@ -452,12 +452,7 @@ def check(case):
         if "score" in vars(s):
             del s.score
         r.transitions += 1
-        if exc is not None:
-            if isinstance(exc, ValueError):
-                if li == 0:
-                    return r.skip("fit rejected the configuration with ValueError")
-                r.count("warm_leg_rejected")
-                break
+        if exc is not None:  # every configuration of this alphabet is admissible
             r.fail("crash:%s" % type(exc).__name__, "leg %d %r: %r" % (li, p, exc))
             return r
         warned = any("Score threshold" in m for m in w)
